@@ -45,6 +45,8 @@ def main():
                 out["lines"][p] = r.stdout.splitlines()[-3:]
     finally:
         subprocess.run(["git", "-C", "/repo", "checkout", "--", "."])
+        # evidence files were rewritten by runs against the changed tree: put the committed ones back
+        subprocess.run(["git", "-C", VERIF, "checkout", "--", "evidence"], capture_output=True)
         # rebuild against the restored tree so that no stale binary is left behind
         subprocess.run([os.path.join(VERIF, "check"), "--setup"], cwd=VERIF, capture_output=True, text=True)
     print(json.dumps(out))
